@@ -36,26 +36,63 @@ unparse = ast.unparse
 _KNOWN: Optional[Set[str]] = None
 
 
+_ANCHORS = None      # bare last component -> dotted strings that end with it
+_PROJECT_QUALS: Set[str] = set()
+
+
+def _scan_rule_strings():
+  global _KNOWN, _ANCHORS
+  here = os.path.dirname(os.path.abspath(__file__))
+  plain: Set[str] = set()
+  anchors: Dict[str, List[str]] = {}
+  for p in glob.glob(os.path.join(here, 'rules', '*.py')) + [
+      os.path.join(here, 'own.py'), os.path.join(here, 'callgraph.py'),
+      os.path.join(here, 'model.py')]:
+    with open(p) as f:
+      tree = ast.parse(f.read())
+    for n in ast.walk(tree):
+      if isinstance(n, ast.Constant) and isinstance(n.value, str):
+        v = n.value
+        if not v or any(ch.isspace() for ch in v):
+          continue
+        toks = re.findall(r'[A-Za-z_][A-Za-z0-9_]*', v)
+        if not toks:
+          continue
+        if '.' in v and re.fullmatch(r'\.?[A-Za-z_][A-Za-z0-9_.]*', v) and len(
+            toks) >= 2:
+          # a (partial) qualified name: its last component names one function,
+          # the components before it name modules / classes
+          plain.update(toks[:-1])
+          anchors.setdefault(toks[-1].lstrip('_'), []).append(v)
+        else:
+          plain.update(toks)
+  _KNOWN, _ANCHORS = plain, anchors
+
+
 def known_names() -> Set[str]:
   """Identifiers the rule modules name code by: the words of their string
-  constants that are written like code (no blanks - qualified names, function
-  names, attribute names), not the prose of their messages."""
-  global _KNOWN
+  constants that are written like code (no blanks), not the prose of their
+  messages.  The last component of a dotted name is kept apart (anchored())."""
   if _KNOWN is None:
-    here = os.path.dirname(os.path.abspath(__file__))
-    out: Set[str] = set()
-    for p in glob.glob(os.path.join(here, 'rules', '*.py')) + [
-        os.path.join(here, 'own.py'), os.path.join(here, 'callgraph.py'),
-        os.path.join(here, 'model.py')]:
-      with open(p) as f:
-        tree = ast.parse(f.read())
-      for n in ast.walk(tree):
-        if isinstance(n, ast.Constant) and isinstance(n.value, str):
-          v = n.value
-          if v and not any(ch.isspace() for ch in v):
-            out.update(re.findall(r'[A-Za-z_][A-Za-z0-9_]*', v))
-    _KNOWN = out
+    _scan_rule_strings()
   return _KNOWN
+
+
+def anchored(h) -> bool:
+  """`h` is (or may be) the function some rule names by a dotted string: it is
+  that very function, or the named one is not where the string says (moved /
+  renamed: any function of that bare name may be it)."""
+  if _ANCHORS is None:
+    _scan_rule_strings()
+  for full in _ANCHORS.get(h.name.lstrip('_'), ()):
+    if h.qualname == full or h.qualname.endswith(full if full.startswith(
+        '.') else '.' + full):
+      return True
+    there = any(q == full or q.endswith(full if full.startswith('.') else
+                                        '.' + full) for q in _PROJECT_QUALS)
+    if not there:
+      return True
+  return False
 
 
 _BASELINE = None
@@ -233,7 +270,8 @@ def eligible(h, generator: bool = False, nested_ok: bool = False,
     if any(isinstance(x, ast.Name) and x.id == va and id(x) not in starred
            for x in ast.walk(n)):
       return False
-  if h.name in known_names() or h.name.lstrip('_') in known_bare_names():
+  if h.name in known_names() or h.name.lstrip('_') in known_bare_names() or (
+      anchored(h)):
     return False  # an anchor, possibly (un)privatised
   if not h.name.startswith('_') and not nested_ok and not (
       other_module and _module_is_helper_only(h)) and not (
@@ -480,6 +518,8 @@ class Inliner:
     self.count = 0
     self.sites: List[str] = []
     self._recv: Dict[int, str] = {}
+    global _PROJECT_QUALS
+    _PROJECT_QUALS = set(project.funcs) | set(project.classes)
 
   def _callee(self, call, scope, generator: bool = False):
     h = self._callee0(call, scope, generator)
